@@ -14,6 +14,9 @@ Feature flags (string of letters) for `random_tree`:
     'L'  selectors may start with a colon (`:root`, `::selection`, nested `:hover`)
     'U'  the last declaration of a rule body may be terminated by the end of the body instead of `;` (C17 only)
     'V'  no comments inside values and selectors (C17: value-token / selector ground truth stays unambiguous)
+    'Q'  string literals with generated bodies: the *other* kind of quote (`"it's }"`, `'say "{'`), escaped quotes
+         and backslashes, `{ } ; :`, parentheses and comment markers inside the string -- as value tokens (bare, in
+         url(..) / fn(..) / maps) and in selectors (attribute selectors, :not([..]), parenthesised at-rule arguments)
 """
 import random
 
@@ -56,6 +59,51 @@ SEL_COMMENTS = [' /* { */ ', ' /* ; */ ', ' /* } */ ', ' /* a:b */ ']
 
 
 # ------------------------------------------------------------------------------------------------
+# string literals (feature 'Q')
+
+QUOTES = '"\''
+STRING_WORDS = ['it', 's', 'say', 'x', ' ', 'a b', ', ', 'http', '//', '#', '=', '\\n', '@']
+# wrappers of a string literal S: value tokens and selectors
+QUOTED_TOKENS = ['%s', '%s', '%s', 'url(%s)', 'fn(%s, 1)', 'format(%s)', '(a: %s, b: 2)', 'f(1, %s)', 'attr(%s)']
+QUOTED_SELECTORS = ['a[title=%s]', '[data-x=%s]', 'a[href^=%s] b', 'a:not([x=%s])', 'input[value=%s]:focus',
+                    '.c[d~=%s], e', '&[lang|=%s]', 'q[a=%s][b=%s]', '@include mq(%s)', '@supports (content: %s)',
+                    '@include x(%s, 1)', 'p:lang(%s)']
+
+
+def other_quote(q):
+    return "'" if q == '"' else '"'
+
+
+def qstring(rng):
+    """a single-line string literal; its body is a random sequence of: the other kind of quote, `{ } ; :`, the own
+    quote escaped, an escaped backslash, the other quote escaped, parentheses, comment markers, harmless text"""
+    q = rng.choice(QUOTES)
+    o = other_quote(q)
+    body = []
+    for _ in range(rng.choice([1, 2, 2, 3, 3, 4, 5])):
+        r = rng.random()
+        if r < 0.30:
+            body.append(o)
+        elif r < 0.60:
+            body.append(rng.choice('{};:'))
+        elif r < 0.68:
+            body.append('\\' + q)
+        elif r < 0.72:
+            body.append('\\\\')
+        elif r < 0.75:
+            body.append('\\' + o)
+        elif r < 0.82:
+            body.append(rng.choice(['(', ')', '/*', '*/']))
+        else:
+            body.append(rng.choice(STRING_WORDS))
+    return q + ''.join(body) + q
+
+
+def _fill(rng, pattern):
+    return pattern % tuple(qstring(rng) for _ in range(pattern.count('%s')))
+
+
+# ------------------------------------------------------------------------------------------------
 # random trees
 
 def _value(rng, feats):
@@ -64,6 +112,10 @@ def _value(rng, feats):
     toks = [rng.choice(pool) for _ in range(n)]
     if 'P' in feats and rng.random() < 0.5:
         toks[rng.randrange(n)] = rng.choice(PAREN_TOKENS)
+    if 'Q' in feats:
+        for j in range(n):
+            if rng.random() < 0.5:
+                toks[j] = _fill(rng, rng.choice(QUOTED_TOKENS))
     seps = []
     for _ in range(n - 1):
         if 'V' not in feats and rng.random() < 0.12:
@@ -79,6 +131,8 @@ def _value(rng, feats):
 def _selector(rng, feats, depth):
     def one():
         r = rng.random()
+        if 'Q' in feats and r < 0.45:
+            return _fill(rng, rng.choice(QUOTED_SELECTORS))
         if 'L' in feats and r < 0.45:
             return rng.choice(LEAD_COLON)
         if 'P' in feats and r < 0.45:
@@ -273,6 +327,46 @@ def tiny_forests(n):
             for body in tiny_forests(k):
                 for rest in tiny_forests(n - 1 - k):
                     yield [['rule', sel, body]] + rest
+
+
+# ------------------------------------------------------------------------------------------------
+# a small exhaustive family of string literals (feature 'Q' made systematic)
+
+def string_alphabet(q):
+    """pieces of a string body delimited by quote q: the other quote, the four delimiters, the escaped own quote, text"""
+    return [other_quote(q), '{', '}', ';', ':', '\\' + q, 'x']
+
+
+# where the literal S is put: (selector of the first rule, value tokens of its first declaration)
+STRING_PLACES = {
+    'value': ('a', ['%s']),
+    'value2': ('a', ['x', '%s', 'y']),
+    'url': ('a', ['url(%s)']),
+    'attr': ('a[t=%s]', ['c']),
+    'not': ('a:not([t=%s]) u', ['c']),
+    'atrule': ('@include m(%s)', ['c']),
+}
+
+
+def string_tree(quote, body, place):
+    """`<sel>{b:<value>;c:d;e{f:g;}}h{i:j;}` with the literal quote+body+quote in the selector or in the first value"""
+    lit = quote + body + quote
+    sel, toks = STRING_PLACES[place]
+    toks = [t.replace('%s', lit) for t in toks]
+    return [['rule', sel.replace('%s', lit), [['decl', 'b', toks, [' '] * (len(toks) - 1)],
+                                              ['decl', 'c', ['d'], []],
+                                              ['rule', 'e', [['decl', 'f', ['g'], []]]]]],
+            ['rule', 'h', [['decl', 'i', ['j'], []]]]]
+
+
+def string_bodies(q, maxlen):
+    """all piece sequences of length 1..maxlen over string_alphabet(q), as (index list, text)"""
+    alpha = string_alphabet(q)
+    level = [([], '')]
+    for _ in range(maxlen):
+        level = [(ix + [k], txt + piece) for ix, txt in level for k, piece in enumerate(alpha)]
+        for item in level:
+            yield item
 
 
 # ------------------------------------------------------------------------------------------------
